@@ -131,7 +131,12 @@ def UnGood (outer : List String) (s srcS : Schema) : Un → Prop
   | .filter e => s = srcS ∧ ExprOK (srcS.fields ++ outer) e
   | .distinct => s.fields = srcS.fields
   | .map es => ExprsOK (srcS.fields ++ outer) es ∧ es.length = s.fields.length
-  | .groupBy _ aggExprs key _ _ => ExprsOK (srcS.fields ++ outer) (aggExprs ++ key)
+  | .groupBy aggs aggExprs key _ _ =>
+    ExprsOK (srcS.fields ++ outer) (aggExprs ++ key) ∧ aggs.length = aggExprs.length ∧
+      s.fields.length = key.length + aggs.length ∧
+      -- the aggregates cannot fail (e.g. no `sum` over a column that may hold a String)
+      ∀ (ctx : Ctx) (rows : List Row), (∀ r ∈ rows, Binds (srcS.fields ++ outer) (r :: ctx)) →
+        (groupByRows ctx s.fields aggs aggExprs key rows).isSome = true
   | .unnest _ => s.fields = srcS.fields
   | .ost keys _ limit => s.fields = srcS.fields ∧ ExprsOK (srcS.fields ++ outer) keys ∧ ∀ e, limit = some e → ExprOK outer e
   | .tvf name _ _ => name = "max_diff_watermark" → s.fields = srcS.fields
